@@ -539,13 +539,21 @@ def r11d(ctx):
 
 
 def _selection_membership_tests(fn):
-    """`x in <expr>._partitions` / `x in <expr>.partitions` comparisons (not `for x in ...` iterations)"""
-    return [n for n in ast.walk(fn) if isinstance(n, ast.Compare) and any(isinstance(o, (ast.In, ast.NotIn)) for o in n.ops) and any(isinstance(c_, ast.Attribute) and c_.attr in ("_partitions", "partitions") for c_ in n.comparators)]
+    """`x in <expr>._partitions` / `x in <expr>.partitions` comparisons (not `for x in ...` iterations), and
+    `len(<selection>) == <frame>.npartitions` ("every partition is selected" decided by COUNT)"""
+    out = [n for n in ast.walk(fn) if isinstance(n, ast.Compare) and any(isinstance(o, (ast.In, ast.NotIn)) for o in n.ops) and any(isinstance(c_, ast.Attribute) and c_.attr in ("_partitions", "partitions") for c_ in n.comparators)]
+    for n in ast.walk(fn):
+        if isinstance(n, ast.Compare) and len(n.ops) == 1 and isinstance(n.ops[0], (ast.Eq, ast.NotEq)):
+            a, b = ast.unparse(n.left), ast.unparse(n.comparators[0])
+            for x, y in ((a, b), (b, a)):
+                if x.startswith("len(") and "partitions" in x and "npartitions" not in x and y.endswith(".npartitions"):
+                    out.append(n)
+    return out
 
 
 @rule(
     "R11i",
-    ["C11", "C06"],
+    ["C11", "C06", "C12"],
     """A PARTITION SELECTION IS A SEQUENCE, NOT A SET: `_partitions` / `Partitions.partitions` may repeat and reorder partition
     numbers (partitions[[1, 1, 2]], partitions[::-1]). Per-partition values of a selected view - divisions, lengths, file parts - are
     picked BY POSITION (`[values[p] for p in sel]`); a membership test `i in <x>._partitions` answers for the set of selected numbers,
@@ -561,13 +569,13 @@ def r11i(ctx):
         n += 1
         for t in _selection_membership_tests(fn):
             fq = qual(cls, fn) if cls is not None else f"{mod.name.split('.', 1)[-1]}.{fn.name}"
-            ctx.bad(f"{fq}:selection-membership", mod.loc(t), f"`{unparse(t)}` treats the selected partitions as a set: a selection that repeats or reorders partitions gets the values of the distinct partitions in sorted order (fewer / other divisions, lengths or parts than the view has partitions)")
+            ctx.bad(f"{fq}:selection-membership", mod.loc(t), f"`{unparse(t)}` treats the selected partitions as a set (or judges 'all selected' by their count): a selection that repeats or reorders partitions gets the values of the distinct partitions in sorted order (fewer / other divisions, lengths or parts than the view has partitions)")
     ctx.floor("functions scanned for selection membership tests", n, 1500)
     ex = os.path.join(os.path.dirname(os.path.dirname(__file__)), "examples", "r11d_positive.py")
     tree = ast.parse(open(ex).read())
     flagged = {f.name for f in tree.body if isinstance(f, ast.FunctionDef) and _selection_membership_tests(f)}
-    if flagged != {"culled"}:
-        raise AnalysisError(f"R11i self-check failed: positive example flagged {sorted(flagged)}, expected ['culled']")
+    if flagged != {"culled", "all_selected"}:
+        raise AnalysisError(f"R11i self-check failed: positive example flagged {sorted(flagged)}, expected ['all_selected', 'culled']")
     ctx.ok("examples/r11d_positive.py", "sa/examples/r11d_positive.py", "positive example flagged, its by-position twin is not")
 
 
